@@ -1,7 +1,6 @@
 package tex
 
 import (
-	"bytes"
 	"errors"
 	"strconv"
 )
@@ -29,20 +28,10 @@ func (i JsUInt64) MarshalJSON() ([]byte, error) {
 // UnmarshalJSON
 // unmarshal json
 func (i *JsUInt64) UnmarshalJSON(b []byte) error {
-	lb := len(b)
-	if lb <= 2 {
+	strBuf, ok := jsText(b)
+	if !ok {
 		return ErrInvalidUInt64Js
 	}
-
-	if lb == 2 {
-		if bytes.Equal(b, jsonBrace) {
-			*i = 0
-			return nil
-		}
-		return ErrInvalidInt64Js
-	}
-
-	strBuf := string(b[1 : lb-1])
 	t, err := strconv.ParseUint(strBuf, 10, 64)
 	if err != nil {
 		return err
